@@ -32,6 +32,7 @@ impl Vector<Complex::<f64>> {
     /// Return the Inf norm: largest absolute value element (p -> infinity)
     #[inline]
     pub fn norm_inf(&self) -> f64 {
+        if self.size() == 0 { return 0.0; } // like the other norms of the empty vector
         let mut result = self.vec[0].abs();
         for i in 1..self.size() {
             let abs = self.vec[i].abs();
